@@ -320,7 +320,7 @@ def monC06 (h : Hist) : Option String :=
       else if st = 304 && !clientConditional && isPlainGet ri then
         match x.fgCalls.head? with
         | none => some s!"exchange {ri.n}: unconditional GET answered with a 304 from the store"
-        | some c => if Header.has c.hdr sIfNoneMatch || Header.has c.hdr sIfModifiedSince
+        | some c => if (Header.values c.hdr sIfNoneMatch ++ Header.values c.hdr sIfModifiedSince).any (fun v => !(trimString v).isEmpty)
                     then some s!"exchange {ri.n}: unconditional GET answered with the 304 of the cache's own validation request"
                     else none
       else none ]
